@@ -1,0 +1,154 @@
+//go:build verif
+
+// Round 6, area K: the remaining pieces of internal/http_api between a handler and the wire (C10 C15 C14 C17 C18): the compressing
+// response writer, the panic / not-found / method-not-allowed answers, the server's error-log adapter, Err.Error. Comment-only file.
+
+package http_api
+
+// ---- library calls as seen from this package ------------------------------------------------------------------------------------------
+// ResponseWriter.Header returns THE header map of that response (net/http: "the header map that will be sent by WriteHeader"): one map per
+// writer, never nil - r6KHdrOf(w). Header.Del(key) removes the key: no modelled state, recorded as the pair (map, key) in r6KHdrDels;
+// Header.Set likewise in r6KHdrSets (map, key, value). http.DetectContentType is a pure function of the bytes.
+//@ fn r6KHdrOf(w net/http.ResponseWriter) net/http.Header
+//@ fn r6KHdrKey(h net/http.Header, key string) int
+//@ fn r6KHdrKV(h net/http.Header, key string, value string) int
+//@ ghost r6KHdrDels set[int]
+//@ ghost r6KHdrSets set[int]
+//@ extern[in github.com/nsqio/nsq/internal/http_api] (net/http.ResponseWriter).Header(w) (h)
+//@   ensures[the-response-header-map] h != nil && h == r6KHdrOf(w)
+//@   modifies
+//@ extern[in github.com/nsqio/nsq/internal/http_api] (net/http.Header).Del(h, key)
+//@   modifies r6KHdrDels
+//@   onreturn r6KHdrDels := setadd(r6KHdrDels, r6KHdrKey(h, key))
+//@ benign net/http.DetectContentType
+
+// ---- Err ------------------------------------------------------------------------------------------------------------------------------
+// Err.Error: the text, unchanged (it becomes the "message" of the JSON error body).
+//@ func (e Err) Error() string
+//@   props C10 C15 C14 C17 C18
+//@   ensures[the-text] result == e.Text
+//@   modifies
+//@   nochan
+
+// ---- compressResponseWriter (the writer a handler sees when the client accepts gzip / deflate) ---------------------------------------------
+// pred: built by CompressHandler - a compressor and the real response writer.
+//@ pred r6KCRW(w *compressResponseWriter) := w != nil && w.Writer != nil && w.ResponseWriter != nil
+// Header: the header map of the WRAPPED writer (what the handler sets reaches the real response).
+//@ func (w *compressResponseWriter) Header() http.Header
+//@   props C10 C15 C14 C17 C18
+//@   requires r6KCRW(w)
+//@   ensures[the-wrapped-writers-header] result != nil && result == r6KHdrOf(w.ResponseWriter)
+//@   modifies
+//@   nochan
+// WriteHeader: the wrapped writer receives EXACTLY the status given, once; the Content-Length of the uncompressed body is dropped first (the
+// compressed body has another length: a stale Content-Length makes the response malformed).
+//@ func (w *compressResponseWriter) WriteHeader(c int)
+//@   props C10 C15 C14 C17 C18
+//@   requires r6KCRW(w)
+//@   ensures[status-passed-through-once] jHdrWrites == old(jHdrWrites) + 1 && jLastStatus == c && jLastStatusW == w.ResponseWriter
+//@   ensures[content-length-dropped] setin(r6KHdrDels, r6KHdrKey(r6KHdrOf(w.ResponseWriter), "Content-Length"))
+//@   modifies jHdrWrites, jLastStatus, jLastStatusW, r6KHdrDels
+//@   nochan
+// Write: the bytes given go to the compressor in ONE Write, all of them and nothing else, and its result is returned unchanged; nothing is
+// written to the wrapped writer behind the compressor's back; Content-Length is dropped.
+//@ func (w *compressResponseWriter) Write(b []byte) (int, error)
+//@   props C10 C15 C14 C17 C18
+//@   requires r6KCRW(w)
+//@   ensures[one-write-to-the-compressor] wCalls == old(wCalls) + 1 && wN == old(wN) + result0
+//@   ensures[exactly-the-bytes-given] forall k int :: {wOut[k]} old(wN) <= k && k < old(wN) + result0 ==> wOut[k] == b[k - old(wN)]
+//@   ensures[all-of-them-unless-error] result1 == nil ==> result0 == len(b)
+//@   ensures[error-passed-through] (result1 != nil) == (wErrs == old(wErrs) + 1)
+//@   ensures[content-length-dropped] setin(r6KHdrDels, r6KHdrKey(r6KHdrOf(w.ResponseWriter), "Content-Length"))
+//@   ensures[no-status-line-here] jHdrWrites == old(jHdrWrites)
+//@   modifies wN, wOut, wCalls, wErrs, wLastErr, wForeign, r6KHdrDels, hdrKey, hdrVal
+//@   nochan
+
+// ---- the three fixed answers -------------------------------------------------------------------------------------------------------------
+// C10 "405/404 for wrong method/path ... panics are turned into 500": the inner handlers return EXACTLY these errors; V1 (verified:
+// V1$1/[error-status]) answers with the Code of the error the handler returned.
+//@ func LogPanicHandler$1$1(w http.ResponseWriter, req *http.Request, ps httprouter.Params) (interface{}, error)
+//@   props C10 C15 C14 C17 C18
+//@   ensures[500-internal-error] result0 == nil && dyntype(result1) == typetag("Err") && unbox(result1, "Err").Code == 500 && unbox(result1, "Err").Text == "INTERNAL_ERROR"
+//@   modifies
+//@   nochan
+//@ func LogNotFoundHandler$1$1(w http.ResponseWriter, req *http.Request, ps httprouter.Params) (interface{}, error)
+//@   props C10 C15 C14 C17 C18
+//@   ensures[404-not-found] result0 == nil && dyntype(result1) == typetag("Err") && unbox(result1, "Err").Code == 404 && unbox(result1, "Err").Text == "NOT_FOUND"
+//@   modifies
+//@   nochan
+//@ func LogMethodNotAllowedHandler$1$1(w http.ResponseWriter, req *http.Request, ps httprouter.Params) (interface{}, error)
+//@   props C10 C15 C14 C17 C18
+//@   ensures[405-method-not-allowed] result0 == nil && dyntype(result1) == typetag("Err") && unbox(result1, "Err").Code == 405 && unbox(result1, "Err").Text == "METHOD_NOT_ALLOWED"
+//@   modifies
+//@   nochan
+
+// ---- the server's error log ----------------------------------------------------------------------------------------------------------------
+// logWriter.Write (http.Server.ErrorLog): the line goes to the log function, everything is reported written, never an error (a failing
+// ErrorLog writer would make net/http drop its own diagnostics).
+// (the call through the field l.logf is not resolved to the function-type contract of lg.AppLogFunc - zz_contracts_r4resp_verif.go: "log
+//  functions write to the configured logger and touch no modelled state" - so the SAME assumption is restated for the field)
+//@ extern fieldfunc:github.com/nsqio/nsq/internal/http_api.logWriter.logf(lvl, f, args)
+//@   modifies
+//@ func (l logWriter) Write(p []byte) (int, error)
+//@   props C10 C15
+//@   requires l.logf != nil
+//@   ensures[all-written] result0 == len(p) && result1 == nil
+//@   modifies
+//@   nochan
+
+// ---- the closures that produce the three fixed answers ----------------------------------------------------------------------------------
+// A router entry (httprouter.Handle value - here always the closure Decorate returned, Decorate$1 verified: runs the decorated handler
+// once) is invoked dynamically: it runs handlers, so it may change anything (`modifies *`); the invocation is recorded (how many, with which
+// writer and request). ASSUMED for every value of the type: invoking an entry does not BUILD entries (Decorate is called when the route tables
+// are built and by the three closures below, never by a handler), so the record of the most recent Decorate survives the invocation.
+//@ ghost r6KEntryCalls int
+//@ ghost r6KEntryW net/http.ResponseWriter
+//@ ghost r6KEntryReq *net/http.Request
+//@ ghostgroup r6KEntryCalls, r6KEntryW, r6KEntryReq
+//@ extern functype:github.com/julienschmidt/httprouter.Handle(w, req, ps)
+//@   modifies *
+//@   onreturn r6KEntryCalls := r6KEntryCalls + 1
+//@   onreturn r6KEntryW := w
+//@   onreturn r6KEntryReq := req
+//@   onreturn r5HDecorations := r5HDecorations
+//@   onreturn r5HDecorated := r5HDecorated
+//@   onreturn r5HDecoratedBy := r5HDecoratedBy
+// The answer is produced by decorating the fixed handler (…$1$1 above) with two decorators (Log, V1) and invoking that entry exactly once with
+// the writer and the request of the failed dispatch.
+//@ func LogNotFoundHandler$1(w http.ResponseWriter, req *http.Request)
+//@   props C10 C15 C14 C17 C18
+//@   ensures[answered-once-by-the-404-handler] r6KEntryCalls == old(r6KEntryCalls) + 1 && r6KEntryW == w && r6KEntryReq == req && r5HDecorations == old(r5HDecorations) + 1 &&
+//@        r5HDecorated == "github.com/nsqio/nsq/internal/http_api.LogNotFoundHandler$1$1" && r5HDecoratedBy == 2
+//@ func LogMethodNotAllowedHandler$1(w http.ResponseWriter, req *http.Request)
+//@   props C10 C15 C14 C17 C18
+//@   ensures[answered-once-by-the-405-handler] r6KEntryCalls == old(r6KEntryCalls) + 1 && r6KEntryW == w && r6KEntryReq == req && r5HDecorations == old(r5HDecorations) + 1 &&
+//@        r5HDecorated == "github.com/nsqio/nsq/internal/http_api.LogMethodNotAllowedHandler$1$1" && r5HDecoratedBy == 2
+//@ func LogPanicHandler$1(w http.ResponseWriter, req *http.Request, p interface{})
+//@   props C10 C15 C14 C17 C18
+//@   ensures[answered-once-by-the-500-handler] r6KEntryCalls == old(r6KEntryCalls) + 1 && r6KEntryW == w && r6KEntryReq == req && r5HDecorations == old(r5HDecorations) + 1 &&
+//@        r5HDecorated == "github.com/nsqio/nsq/internal/http_api.LogPanicHandler$1$1" && r5HDecoratedBy == 2
+
+// ---- constructors: only closures are allocated ----------------------------------------------------------------------------------------------
+//@ func LogPanicHandler(logf lg.AppLogFunc) func(w http.ResponseWriter, req *http.Request, p interface{})
+//@   props C10 C15 C14 C17 C18
+//@   ensures[the-500-closure] fnname(result) == "github.com/nsqio/nsq/internal/http_api.LogPanicHandler$1"
+//@   modifies
+//@   nochan
+//@ func LogNotFoundHandler(logf lg.AppLogFunc) http.Handler
+//@   props C10 C15 C14 C17 C18
+//@   ensures[a-handler] result != nil
+//@   modifies
+//@   nochan
+//@ func LogMethodNotAllowedHandler(logf lg.AppLogFunc) http.Handler
+//@   props C10 C15 C14 C17 C18
+//@   ensures[a-handler] result != nil
+//@   modifies
+//@   nochan
+//@ func CompressHandler(h http.Handler) http.Handler
+//@   props C10 C15 C14 C17 C18
+//@   ensures[a-handler] result != nil
+//@   modifies
+//@   nochan
+// CompressHandler$1 (the closure that picks gzip / deflate from Accept-Encoding and wraps the writer) has NO contract: its two `defer gw.Close()`
+// sit inside a switch inside a loop (conditional defers: outside the engine's subset, `contract-binds` fails). What it builds is verified above
+// (compressResponseWriter.Header / WriteHeader / Write).
